@@ -202,6 +202,7 @@ type Interp struct {
 	stats       struct{ instrs, forks, merges, calls, states int }
 	funcsSeen   map[string]bool
 	blocksSeen  map[*ssa.BasicBlock]bool
+	unwindAbort bool
 	contracts   map[string]bool // function names replaced by contract (spec) calls
 	frozen      bool
 	solverFeas  func(*Term) string
@@ -678,6 +679,12 @@ func (fr *Frame) run(st *State, b *ssa.BasicBlock, stops []*ssa.BasicBlock) outc
 				in.drops++
 				if res != "unsat" {
 					in.oblige("unwind", fmt.Sprintf("unwind>%d at %s", in.unwind, in.posOf(t)), st.abs(), in.posOf(t))
+				}
+				if res == "sat" {
+					// the loop provably goes on beyond the bound in the model: the job is inconclusive whatever follows
+					// (the obligation above is kept and its model replayed natively with a watchdog); stop here
+					in.unwindAbort = true
+					unsupported("unwinding bound %d exceeded at %s: the loop is not bounded in the model", in.unwind, in.posOf(t))
 				}
 				return out
 			}
